@@ -22,6 +22,7 @@ Init == \/ /\ mode = "tail" /\ N \in 3 .. TailNMax /\ k \in -(N - 1) .. (N - 1) 
         \/ /\ mode = "pairs" /\ N \in NMin .. NMax /\ k \in 1 .. 2 ^ (N - 1) - 1 /\ j = -1
         \/ /\ mode = "shift" /\ N \in 3 .. 32 /\ k \in -(N - 2) .. (N - 2) /\ j = -1
         \/ /\ mode = "dtail" /\ N \in 3 .. TailNMax /\ k \in -(N - 1) .. (N - 1) /\ j = -1
+        \/ /\ mode = "atail" /\ N \in 3 .. TailNMax /\ k \in -(N - 1) .. (N - 1) /\ j = -1
         \/ /\ mode = "lat" /\ N \in LatN /\ k \in 0 .. 4 * (N - 1) - 1 /\ j = -1
 Next == /\ j = -1
         /\ \/ mode = "tail" /\ j' \in 0 .. 255
@@ -29,6 +30,7 @@ Next == /\ j = -1
            \/ mode = "shift" /\ j' \in 0 .. 2 * (N - 2)
            \/ mode = "lat" /\ j' \in 0 .. 4 * (N - 1) - 1
            \/ mode = "dtail" /\ j' \in 0 .. 511
+           \/ mode = "atail" /\ j' \in 0 .. 255
         /\ UNCHANGED <<mode, N, k>>
 Spec == Init /\ [][Next]_vars
 
@@ -104,6 +106,29 @@ DTailB == LET ex == j % 4
           IN /\ Shr(w, 32 - N) = RoundMag(N, 2, Add(Pow2(30), F), 4 * k + ex - 30, rz)
              /\ Low(w, 32 - N) = <<>>
 DTailOk == j = -1 \/ mode # "dtail" \/ DTailB
+
+\* ---- ATail: the tail shared by add_mags and sub_mags for every width.  S62 = the 62 bits under the hidden bit
+\* (position 62); the fraction is shifted by reg + 2, so the guard bit of S62 sits at 65 - N + reg.
+\* The tail is NOT a correct rounding everywhere: with a regime of N-2 bits, exponent 3 and a zero fraction
+\* (the value 2^(4k+3), three quarters of the way to the next pattern) it sees a tie, because the cut-off low
+\* exponent bit is not recorded as sticky (mul and div do record it).  ATailDeviates states that deviation,
+\* ATailOk that it is the only one; PairsOk / LatOk show no sum or difference of two posits reaches it
+\* (an operand with that regime has no exponent bits, so it is 2^(4k) and the sum stays below 2^(4k+2)).
+AG == 65 - N + Reg
+APos == <<AG + 1, AG, AG - 1, Reg + 2, 34 + Reg, 61>>
+APosOk(i) == APos[i] >= 0 /\ APos[i] <= 61 /\ \A h \in 1 .. i - 1 : APos[h] # APos[i]
+RECURSIVE ASumF(_)
+ASumF(i) == IF i = 0 THEN <<>>
+            ELSE IF (j \div 4) \div (2 ^ (i - 1)) % 2 = 1 /\ APosOk(i) THEN Add(ASumF(i - 1), Pow2(APos[i])) ELSE ASumF(i - 1)
+ATailGap(ex, F) == Reg = N - 2 /\ ex = 3 /\ F = <<>>
+ATailB == LET ex == j % 4
+              F  == ASumF(6)
+              w  == AddTailE2(N, k, ex, F)
+              r  == RoundMag(N, 2, Add(Pow2(62), F), 4 * k + ex - 62, FALSE)
+          IN /\ Low(w, 32 - N) = <<>>
+             /\ ~ATailGap(ex, F) => Shr(w, 32 - N) = r
+             /\ (ATailGap(ex, F) /\ k >= 0) => Shr(w, 32 - N) # r        \* the latent deviation, named
+ATailOk == j = -1 \/ mode # "atail" \/ ATailB
 
 TailOk  == j = -1 \/ mode # "tail"  \/ TailB
 PairsOk == j = -1 \/ mode # "pairs" \/ PairsB
